@@ -20,7 +20,9 @@ import (
 	_ "verif/harness/c10"
 	_ "verif/harness/c11"
 	_ "verif/harness/c12"
+	_ "verif/harness/c13"
 	_ "verif/harness/c18"
+	_ "verif/harness/c20"
 )
 
 func init() {
